@@ -12,7 +12,7 @@ DEVS = ["DevShortReadPads", "DevSwapOverflow", "DevFinalLastByteOnly", "DevHelpe
 
 SMALL = dict(Kinds='{"reader", "writer", "enc", "dec"}', BlockSizes="{2, 3}",
              DataLens="{0, 1, 2, 3, 4, 5, 6, 7}",
-             Bads='{"none", "zero", "big", "fill", "nopad", "empty"}',
+             Bads='{"none", "zero", "big", "fill", "fill2", "nopad", "empty"}',
              MaxReq="6", Reqs="{0, 1, 2, 3, 5}", Chunk="6", SwapSize="4", SrcKs="{0, 1, 2, 3, 4, 5, 6}",
              MaxZero="1")
 MID = dict(SMALL, BlockSizes="{2, 3, 4}", DataLens="{0, 1, 2, 3, 4, 5, 6, 7, 8, 9, 11, 12, 13}",
@@ -20,7 +20,7 @@ MID = dict(SMALL, BlockSizes="{2, 3, 4}", DataLens="{0, 1, 2, 3, 4, 5, 6, 7, 8, 
            SrcKs="{0, 1, 2, 3, 4, 5, 7, 12}", MaxZero="2")
 REAL = dict(Kinds='{"reader", "writer", "enc", "dec"}', BlockSizes="{8, 16}",
             DataLens="{0, 1, 7, 8, 9, 15, 16, 17, 31, 32, 33, 40, 1007, 1008, 1009, 1023, 1024, 1025, 1039, 1040, 1041, 2047, 2048, 2049, 3000, 4999, 5000}",
-            Bads='{"none", "zero", "big", "fill", "nopad", "empty"}',
+            Bads='{"none", "zero", "big", "fill", "fill2", "nopad", "empty"}',
             MaxReq="8192", Reqs="{0, 1, 5, 7, 15, 16, 17, 1023, 1024, 1025, 1040, 1041, 2048, 4096, 8192}",
             Chunk="1024", SwapSize="1024", SrcKs="{0, 1, 5, 15, 16, 17, 1000, 1024, 5000}", MaxZero="2")
 
